@@ -59,6 +59,18 @@ UNIT = dict(
     ],
     runs=[],
 )
+UNIT['functions'] += [
+    dict(file=TR_CPP, name='FileTransport::read', cname='FTR_read', self='FTR',
+         cfg=dict(members={'m_name', 'm_latency', 'm_listener', 'm_checkDevice', 'm_fd', 'm_buffer', 'm_bufSize', 'm_bufLen'},
+                  own_methods={'isValid': ('FTR_isValid', 'self'), 'close': ('FTR_close', 'self')},
+                  methods={'notifyTransportMessage': 'TrListener_notifyTransportMessage'}, drop_calls=['DEBUG_RAW_TRAFFIC'],
+                  text_subs=[(r'::read\(', 'env_read('), (r'\bssize_t\b', 'long')]),
+         pre_subs=[(r'nfds_t nfds = 1;.*?ret = -1;\s*\}', 'ret = env_ppoll(m_fd, &tdiff);', 1)]),
+    dict(file=TR_CPP, name='FileTransport::readConsumed', cname='FTR_readConsumed', self='FTR',
+         cfg=dict(members={'m_name', 'm_latency', 'm_listener', 'm_checkDevice', 'm_fd', 'm_buffer', 'm_bufSize', 'm_bufLen'}, drop_calls=['DEBUG_RAW_TRAFFIC'],
+                  text_subs=[(r'\bmemmove\(', 'env_memmove(')])),
+]
+
 
 
 def R(id, entry, enforce=None, replace=(), loops=False, props=('C14', 'C20'), **kw):
@@ -70,4 +82,5 @@ R('enh_decode_len8', 'h_enh_decode', None, unwind=34, defines=['DEC_MAXLEN=8'], 
   bounded='buffer length <= 8 bytes per call (the transport buffer holds up to 32)')
 R('enh_decode_len32', 'h_enh_decode', None, unwind=34, props=('C14', 'C20'), cost=3000, timeout=7000, tier='thorough')
 R('enh_encode', 'h_enh_encode', None, unwind=3, props=('C14', 'C20'), cost=5)
+R('transport', 'h_transport', None, unwind=34, props=('C14', 'C20'), cost=60)
 R('plain_recv', 'h_plain_recv', None, unwind=6, props=('C14', 'C03', 'C01', 'C20'), cost=20)
